@@ -66,12 +66,16 @@ class TlcResult:
             "Error: The postcondition" in out
         # lines printed by the specification itself
         self.bad = []      # [(line, key)]
-        for m in re.finditer(r'<<"VERIF-BAD", (\d+), "((?:[^"\\]|\\.)*)">>', out):
+        # TLC pretty-prints long tuples over several lines ("<< "VERIF-BAD",\n   12,\n   "key" >>")
+        for m in re.finditer(r'<<\s*"VERIF-BAD",\s*(\d+),\s*"((?:[^"\\]|\\.)*)"\s*>>', out):
             self.bad.append((int(m.group(1)), m.group(2)))
-        m = re.findall(r'<<"VERIF-DONE", (\d+)>>', out)
+        self.drift = []
+        for m in re.finditer(r'<<\s*"VERIF-DRIFT",\s*(\d+),\s*"((?:[^"\\]|\\.)*)"\s*>>', out):
+            self.drift.append((int(m.group(1)), m.group(2)))
+        m = re.findall(r'<<\s*"VERIF-DONE",\s*(\d+)\s*>>', out)
         self.done = max(int(x) for x in m) if m else None
         self.stats = {}
-        for m in re.finditer(r'<<"VERIF-STAT", "([^"]+)", (-?\d+)>>', out):
+        for m in re.finditer(r'<<\s*"VERIF-STAT",\s*"([^"]+)",\s*(-?\d+)\s*>>', out):
             self.stats[m.group(1)] = int(m.group(2))
         self.other_error = None
         if not self.completed and not self.inv_violated and not self.prop_violated \
